@@ -328,7 +328,7 @@ func TestVerif_C35(t *testing.T) {
 		rec.Violation("harness/no binary", "zoekt-merge-index was not built into $VERIF_BIN", nil)
 		return
 	}
-	sets := c35Sets(rec.Rand(1), rec.N(4, 40))
+	sets := c35Sets(rec.Rand(1), rec.N(4, 24))
 	reps := rec.N(2, 3)
 	rec.Count("input_sets", int64(len(sets)))
 	st := &c35Stats{states: map[string]bool{}, prefixes: map[string]bool{}}
